@@ -215,7 +215,7 @@ func c02Run(c *c02Case) error {
 			if stable >= 8 && el > 3500*time.Millisecond {
 				return nil
 			}
-			if el > 25*time.Second {
+			if el > 45*time.Second {
 				return nil
 			}
 			time.Sleep(300 * time.Millisecond)
